@@ -2686,8 +2686,12 @@ class Inliner:
     def candidates(self):
         out = {}
         for q, fi in self.prog.functions.items():
-            if q in self.known or (fi.name.startswith('__') and fi.name.endswith('__')):
+            if q in self.known:
                 continue
+            if fi.name.startswith('__') and fi.name.endswith('__'):
+                # the constructor of a new base class that is only ever reached through `super().__init__(..)` is a helper of its subclasses
+                if not (fi.name == '__init__' and fi.cls is not None and self._only_subclassed(fi.cls)):
+                    continue
             n = fi.node
             if not isinstance(n, ast.FunctionDef):
                 continue
@@ -2697,9 +2701,9 @@ class Inliner:
             if a.vararg:
                 # *args is supported when the body only ever splices it (`(x, *args)`, `f(*args)`)
                 va = a.vararg.arg
+                # ... or reads it (the arguments as a tuple display: `for x in args`, `len(args)`)
                 uses = [x for x in ast.walk(n) if isinstance(x, ast.Name) and x.id == va]
-                starred = {id(x.value) for x in ast.walk(n) if isinstance(x, ast.Starred) and isinstance(x.value, ast.Name) and x.value.id == va}
-                if not uses or any(id(u) not in starred for u in uses):
+                if not uses or any(not isinstance(u.ctx, ast.Load) for u in uses):
                     continue
             # a local class without methods (a record / ctypes layout) is data the helper builds; a memoised factory of such a class
             # (`@lru_cache` ... `class L: _fields_ = ..` ... `return L`) is that factory: the cached value is a class, which nobody mutates
@@ -2754,13 +2758,27 @@ class Inliner:
             if bad:
                 continue
             # overriding / overridden methods are dispatched dynamically: leave them
-            if fi.cls is not None:
+            if fi.cls is not None and fi.name != '__init__':
                 others = [c for c in self.prog.classes.values() if c is not fi.cls and fi.name in c.methods
                           and (fi.cls in c.mro() or c in fi.cls.mro())]
                 if others:
                     continue
             out[q] = fi
         return out
+
+    def _only_subclassed(self, cls):
+        """no expression constructs the class by its name: its __init__ runs only on behalf of subclasses"""
+        if not any(cls in c.mro()[1:] for c in self.prog.classes.values()):
+            return False
+        for m in self.prog.modules.values():
+            for x in ast.walk(m.tree):
+                if isinstance(x, ast.Call) and src(x.func).split('.')[-1] == cls.name:
+                    return False
+                if isinstance(x, ast.Name) and x.id == cls.name and isinstance(x.ctx, ast.Load):
+                    # any other mention (a table of classes, an alias) could be a constructor call in disguise; base lists are fine
+                    if not any(isinstance(c, ast.ClassDef) and any(b is x for b in c.bases) for c in ast.walk(m.tree)):
+                        return False
+        return True
 
     # ---- one call
     def _bind(self, call, fi_callee, caller_node, keep=()):
@@ -2775,7 +2793,10 @@ class Inliner:
                 raise Unsupported('method called through a bare name')
             recv = call.func.value
             if isinstance(recv, ast.Call) and isinstance(recv.func, ast.Name) and recv.func.id == 'super':
-                raise Unsupported('super() call')
+                first = (caller_node.args.posonlyargs + caller_node.args.args)[:1] if isinstance(caller_node, ast.FunctionDef) else []
+                if recv.args or recv.keywords or not first or fi_callee.is_classmethod:
+                    raise Unsupported('super() call')
+                recv = ast.copy_location(ast.Name(id=first[0].arg, ctx=ast.Load()), recv)
             cargs = list(call.args)
             if (not fi_callee.is_classmethod and isinstance(recv, ast.Name) and cargs and not isinstance(cargs[0], ast.Starred)
                     and any(c.name == recv.id and fi_callee.cls in c.mro() for c in self.prog.classes.values())
@@ -2799,7 +2820,22 @@ class Inliner:
             bound[params[i]] = a
         if vararg is not None:
             if not all(_is_simple(a) for a in extra):
-                raise Unsupported('*args with non-trivial arguments')
+                # computed once, in order, into locals of their own (only when nothing else of the call needs evaluating)
+                if not all(_is_simple(a) for a in cargs[:len(params)]) or call.keywords:
+                    raise Unsupported('*args with non-trivial arguments')
+                names_ = _all_names(caller_node)
+                tmp = []
+                for i_, a in enumerate(extra):
+                    if _is_simple(a):
+                        tmp.append(a)
+                        continue
+                    nm_ = '%s_%d__%s' % (vararg, i_, fi_callee.name.strip('_'))
+                    while nm_ in names_:
+                        nm_ += '_'
+                    names_.add(nm_)
+                    prelude.append(ast.copy_location(ast.Assign(targets=[ast.Name(id=nm_, ctx=ast.Store())], value=a, type_comment=None), call))
+                    tmp.append(ast.copy_location(ast.Name(id=nm_, ctx=ast.Load()), a))
+                extra = tmp
             bound[vararg] = ast.Tuple(elts=list(extra), ctx=ast.Load())
         for kw in call.keywords:
             if kw.arg is None or kw.arg not in params + [k.arg for k in n.args.kwonlyargs]:
@@ -2883,6 +2919,15 @@ class Inliner:
         changed = False
 
         def target_of(call):
+            f_ = call.func
+            if (isinstance(f_, ast.Attribute) and isinstance(f_.value, ast.Call) and isinstance(f_.value.func, ast.Name)
+                    and f_.value.func.id == 'super' and not f_.value.args and getattr(fi, 'cls', None) is not None):
+                # static dispatch: the next class of the MRO that defines the method
+                for k_ in fi.cls.mro()[1:]:
+                    t_ = k_.methods.get(f_.attr)
+                    if t_ is not None:
+                        return t_ if t_.qual in cands and t_ is not fi else None
+                return None
             try:
                 r = res.resolve_call(call, fi, count=False)
             except Exception:
